@@ -18,6 +18,10 @@
                              ("not resend for last", code as it is)
      ReportRetry     FALSE = a failed write of the would-block report loses the amount
                              (code as found), TRUE = the amount is added back (after the fix)
+     DeadlineArmed   FALSE = SetWriteDeadline is never called on a fresh connection
+                             (code as found: WriteTimeout - time.Until(zero time) overflows),
+                             TRUE = a write to an upstream that stopped reading fails after
+                             WriteTimeout (after the fix)
 
    The property is stated on ghost state (acc, done, up, drops ...) below the actions.
 
@@ -31,7 +35,7 @@ CONSTANTS BufLen,          \* bufferLen (200 in the code)
           MaxErrs,         \* bound: injected failures (write / dial / report write)
           MaxSpur,         \* bound: late timer callbacks of finished swaps (only wake)
           PktLens,         \* framed packet lengths the handler may see
-          TimeoutSignals, SkipOnErr, ReportRetry,
+          TimeoutSignals, SkipOnErr, ReportRetry, DeadlineArmed,
           AllowClose,      \* Egress.Close may happen
           AllowRecon,      \* the stuck-reconnect branch of sendLoop may close the connection
           RecordHist,      \* keep the action history (behaviour export)
@@ -68,6 +72,7 @@ VARIABLES
   done,     \* [s -> ids taken out of the buffer (written, or skipped after an error)]
   up,       \* sequence of upstream connections, each a sequence of <<"p", id>> / <<"r", bytes>>
   upOf,     \* upOf[c] = sender that owns connection c
+  stc,      \* connections whose upstream has stopped reading (a write to them never completes)
   skipped,  \* ids pop() skipped after a write error
   drops,    \* packets rejected by both buffers, with what was true of the buffers when each refused
   dropBytes, closedRej,        \* sum of framed lengths of drops; calls rejected because closed
@@ -80,7 +85,7 @@ sndv  == <<pc, conn, recon, wb>>
 hndv  == <<prim, hpc, hpkt, hfull, nextId, plen>>
 clsv  == <<shut, closing, stopReq>>
 statv == <<fwd, drp, werrs, rerrs>>
-ghov  == <<acc, done, up, upOf, skipped, drops, dropBytes, closedRej, reported, repLost, errs, spur>>
+ghov  == <<acc, done, up, upOf, stc, skipped, drops, dropBytes, closedRej, reported, repLost, errs, spur>>
 vars  == <<bufv, sndv, hndv, clsv, statv, ghov, hist>>
 View  == <<bufv, sndv, hndv, clsv, statv, ghov>>
 
@@ -101,7 +106,7 @@ Init == /\ w = [s \in Senders |-> <<>>] /\ r = [s \in Senders |-> <<>>]
         /\ fwd = 0 /\ drp = 0 /\ werrs = 0 /\ rerrs = 0
         /\ nextId = 1 /\ plen = <<>>
         /\ acc = [s \in Senders |-> <<>>] /\ done = [s \in Senders |-> <<>>]
-        /\ up = <<>> /\ upOf = <<>>
+        /\ up = <<>> /\ upOf = <<>> /\ stc = {}
         /\ skipped = {} /\ drops = <<>> /\ dropBytes = 0 /\ closedRej = 0
         /\ reported = 0 /\ repLost = 0 /\ errs = 0 /\ spur = 0
         /\ hist = <<>>
@@ -163,7 +168,7 @@ PushClosedEff ==          \* select { case <-p.closed: return pkt, errWouldBlock
     /\ hpc = "idle" /\ shut
     /\ drp' = drp + 1 /\ closedRej' = closedRej + 1
     /\ UNCHANGED <<bufv, conn, recon, wb, prim, hpc, hpkt, hfull, plen, clsv, fwd, werrs, rerrs,
-                   acc, done, up, upOf, skipped, drops, dropBytes, reported, repLost, errs, spur>>
+                   acc, done, up, upOf, stc, skipped, drops, dropBytes, reported, repLost, errs, spur>>
 
 PushFirstEff(s, id, ln, ok) ==      \* (*p.primPtr).buf.push(pkt)
     /\ hpc = "idle" /\ ~shut
@@ -172,7 +177,7 @@ PushFirstEff(s, id, ln, ok) ==      \* (*p.primPtr).buf.push(pkt)
     /\ plen' = [x \in DOMAIN plen \cup {id} |-> IF x = id THEN ln ELSE plen[x]]
     /\ IF ok THEN /\ fwd' = fwd + 1 /\ UNCHANGED <<hpc, hpkt, hfull>>
              ELSE /\ hpc' = "sec" /\ hpkt' = id /\ hfull' = ~CanPush(s) /\ UNCHANGED fwd
-    /\ UNCHANGED <<conn, recon, wb, clsv, drp, werrs, rerrs, done, up, upOf, skipped, drops,
+    /\ UNCHANGED <<conn, recon, wb, clsv, drp, werrs, rerrs, done, up, upOf, stc, skipped, drops,
                    dropBytes, closedRej, reported, repLost, errs, spur>>
 
 PushSecondEff(s2, ok) ==            \* (*p.secPtr).buf.push(pkt), pointer exchange, or the drop
@@ -190,7 +195,7 @@ PushSecondEff(s2, ok) ==            \* (*p.secPtr).buf.push(pkt), pointer exchan
                                         distinct |-> s2 # prim, bothNow |-> ~CanPush(1) /\ ~CanPush(2)])
             /\ dropBytes' = dropBytes + plen[hpkt]
             /\ UNCHANGED <<recon, prim, fwd>>
-    /\ UNCHANGED <<conn, hfull, plen, clsv, werrs, rerrs, done, up, upOf, skipped,
+    /\ UNCHANGED <<conn, hfull, plen, clsv, werrs, rerrs, done, up, upOf, stc, skipped,
                    closedRej, reported, repLost, errs, spur>>
 
 -------------------------------------------------------------------------------
@@ -217,7 +222,7 @@ TopCore(s, br) ==         \* the select at the top of the loop; br = branch take
 DialOKEff(s) ==           \* conn, err = s.reconnect() (handshake written) succeeded
     /\ up' = Append(up, <<>>) /\ upOf' = Append(upOf, s)
     /\ conn' = [conn EXCEPT ![s] = Len(up) + 1]
-    /\ UNCHANGED <<bufv, recon, wb, hndv, clsv, statv, acc, done, skipped, drops, dropBytes,
+    /\ UNCHANGED <<bufv, recon, wb, hndv, clsv, statv, acc, done, stc, skipped, drops, dropBytes,
                    closedRej, reported, repLost, errs, spur>>
 DialOKCore(s) == pc[s] = "dial" /\ DialOKEff(s) /\ pc' = [pc EXCEPT ![s] = "pop"]
 
@@ -225,7 +230,7 @@ DialFailCore(s) ==
     /\ pc[s] = "dial" /\ errs < MaxErrs
     /\ errs' = errs + 1 /\ rerrs' = rerrs + 1
     /\ pc' = [pc EXCEPT ![s] = "top"]
-    /\ UNCHANGED <<bufv, conn, recon, wb, hndv, clsv, fwd, drp, werrs, acc, done, up, upOf,
+    /\ UNCHANGED <<bufv, conn, recon, wb, hndv, clsv, fwd, drp, werrs, acc, done, up, upOf, stc,
                    skipped, drops, dropBytes, closedRej, reported, repLost, spur>>
 
 (* pop(): `if b.ri >= b.rm { b.swap() }` ... *)
@@ -259,9 +264,9 @@ WriteOKEff(s) ==
        /\ up' = [up EXCEPT ![conn[s]] = @ \o Items(batch)]
        /\ done' = [done EXCEPT ![s] = @ \o batch]
     /\ ri' = [ri EXCEPT ![s] = Len(r[s])]
-    /\ UNCHANGED <<w, r, closedB, cv, tmr, tmo, conn, recon, wb, hndv, clsv, statv, acc, upOf,
+    /\ UNCHANGED <<w, r, closedB, cv, tmr, tmo, conn, recon, wb, hndv, clsv, statv, acc, upOf, stc,
                    skipped, drops, dropBytes, closedRej, reported, repLost, errs, spur>>
-WriteOKCore(s) == pc[s] = "write" /\ WriteOKEff(s) /\ pc' = [pc EXCEPT ![s] = "sw2e"]
+WriteOKCore(s) == pc[s] = "write" /\ conn[s] \notin stc /\ WriteOKEff(s) /\ pc' = [pc EXCEPT ![s] = "sw2e"]
 
 (* WriteTo failed after k packets were written completely (the next one partly or not at all).
    len(bufs) is then (rm-ri)-k, f returns n = len(bufs)-1 and pop() sets b.ri = b.rm - n:
@@ -282,7 +287,7 @@ WriteErrEff(s, k, newri) ==
           /\ ri' = [ri EXCEPT ![s] = newri]
     /\ werrs' = werrs + 1
     /\ conn' = [conn EXCEPT ![s] = 0]
-    /\ UNCHANGED <<w, r, closedB, cv, tmr, tmo, recon, wb, hndv, clsv, fwd, drp, rerrs, acc, upOf,
+    /\ UNCHANGED <<w, r, closedB, cv, tmr, tmo, recon, wb, hndv, clsv, fwd, drp, rerrs, acc, upOf, stc,
                    drops, dropBytes, closedRej, reported, repLost, spur>>
 WriteErrCore(s, k) == pc[s] = "write" /\ WriteErrEff(s, k, CodedNewRi(s, k)) /\ pc' = [pc EXCEPT ![s] = "top"]
 
@@ -312,7 +317,7 @@ ReportEff(s, n, ok, retry) ==
                     /\ IF retry THEN UNCHANGED <<wb, repLost>>
                                 ELSE wb' = [wb EXCEPT ![s] = @ - n] /\ repLost' = repLost + n
                     /\ UNCHANGED <<up, reported>>
-    /\ UNCHANGED <<bufv, conn, recon, hndv, clsv, fwd, drp, rerrs, acc, done, upOf, skipped,
+    /\ UNCHANGED <<bufv, conn, recon, hndv, clsv, fwd, drp, rerrs, acc, done, upOf, stc, skipped,
                    drops, dropBytes, closedRej, spur>>
 ReportCore(s, ok) == pc[s] = "report" /\ ReportEff(s, wb[s], ok, ReportRetry) /\ pc' = [pc EXCEPT ![s] = "top"]
 
@@ -365,11 +370,21 @@ TimeoutFires(s) == /\ TimeoutCore(s)
 LateTimer(s) == /\ TimeoutSignals /\ spur < MaxSpur /\ cv[s] = "asleep"
                 /\ cv' = [cv EXCEPT ![s] = "woken"] /\ spur' = spur + 1
                 /\ UNCHANGED <<w, r, ri, closedB, tmr, tmo, sndv, hndv, clsv, statv, acc, done, up,
-                               upOf, skipped, drops, dropBytes, closedRej, reported, repLost, errs>>
+                               upOf, stc, skipped, drops, dropBytes, closedRej, reported, repLost, errs>>
                 /\ H([a |-> "LateTimer", s |-> s])
 WriteOK(s) == WriteOKCore(s) /\ H([a |-> "WriteOK", s |-> s])
 WriteErr(s) == /\ errs < MaxErrs /\ errs' = errs + 1
                /\ \E k \in 0..BufLen : WriteErrCore(s, k) /\ H([a |-> "WriteErr", s |-> s, k |-> k])
+(* the upstream of s's connection stops reading: from now on a write to it blocks *)
+UpstreamStalls(s) == /\ conn[s] # 0 /\ conn[s] \notin stc /\ errs < MaxErrs
+                     /\ stc' = stc \cup {conn[s]} /\ errs' = errs + 1
+                     /\ UNCHANGED <<bufv, sndv, hndv, clsv, statv, acc, done, up, upOf, skipped, drops,
+                                    dropBytes, closedRej, reported, repLost, spur>>
+                     /\ H([a |-> "UpstreamStalls", s |-> s])
+(* the blocked write hits the write deadline (if one was set) and fails like any other write *)
+WriteDeadline(s) == /\ DeadlineArmed /\ conn[s] \in stc
+                    /\ \E k \in 0..BufLen : WriteErrCore(s, k) /\ H([a |-> "WriteDeadline", s |-> s, k |-> k])
+                    /\ UNCHANGED errs
 SwapEnter2(s) == SwapEnter2Core(s) /\ H([a |-> "SwapEnter2", s |-> s])
 ReportOK(s) == ReportCore(s, TRUE) /\ UNCHANGED errs /\ H([a |-> "Report", s |-> s, n |-> wb[s]])
 ReportErr(s) == /\ wb[s] > 0 /\ errs < MaxErrs /\ errs' = errs + 1
@@ -378,8 +393,8 @@ CloseBegin == CloseBeginCore /\ H([a |-> "Close"])
 CloseSender == CloseSenderCore /\ H([a |-> "CloseSender", s |-> closing])
 CloseWait == CloseWaitCore /\ H([a |-> "CloseWait", s |-> closing])
 
-SenderProgress(s) == Top(s) \/ DialOK(s) \/ PopBegin(s) \/ Wake(s) \/ WriteOK(s) \/ SwapEnter2(s) \/ ReportOK(s)
-SenderFault(s) == DialFail(s) \/ WriteErr(s) \/ ReportErr(s) \/ LateTimer(s)
+SenderProgress(s) == Top(s) \/ DialOK(s) \/ PopBegin(s) \/ Wake(s) \/ WriteOK(s) \/ WriteDeadline(s) \/ SwapEnter2(s) \/ ReportOK(s)
+SenderFault(s) == DialFail(s) \/ WriteErr(s) \/ ReportErr(s) \/ LateTimer(s) \/ UpstreamStalls(s)
 
 Next == /\ RecordHist => Len(hist) < MaxHist
         /\ \/ Push \/ PushSec
